@@ -2,7 +2,8 @@
 
 prove       : lean/MontePyVerif/Props/C08.lean
 correspond  : unit U-listnode — Model/ListNode.lean + Model/Shortcut.lean vs ListNode.update_with_new_values / format
-              (node list, covered node ids, written text), lists parsed by the real MCNP_Parser grammar
+              (node list, covered node ids, written text), lists parsed by the real MCNP_Parser grammar;
+              unit U-parse — Model/ShortcutParse.lean vs the node list the real parser builds (structure and values)
 judge       : the written list read by two independent MCNP-rules readers (Lean Spec through the driver, and
               tools/vlib/shortcut_ref.py) against the values the API holds; also parse-time expansion against the Spec;
               real cards (data-block IMP / VOL, TR) through read_input -> edit -> write_to_file
@@ -30,7 +31,13 @@ META = {
 }
 
 THEOREMS = [
+    "C08_expand",
+    "C08_expand_zero_count_refuted",
+    "C08_recompress",
+    "C08_grow_shrink",
     "C08_consume_inv",
+    "C08_wellformed",
+    "C08_format_sound",
     "C08_jump_only_none",
     "C08_repeat_matches_first",
     "C08_repeat_front_matches_all",
@@ -187,7 +194,7 @@ def _run_impl(case):
     """Parse the list with the real grammar, then per round: edit the values, update_with_new_values, format."""
     mp = _mp()
     sn = mp.montepy.input_parser.syntax_node
-    res = {"rounds": []}
+    res = {"rounds": [], "text": case["text"]}
     try:
         ln = parse_list(case["text"])
         if ln is None:
@@ -198,6 +205,12 @@ def _run_impl(case):
         res["parse_err"] = name if name in ("ValueError", "ParsingError", "MalformedInputError") else "leak:" + name
         return res
     res["parsed"] = [rat(v) for v in parsed]
+    res["pnodes"] = [
+        {"sc": KIND[n._type.value], "vals": [rat(x.value) if x.value is not None else None for x in n.nodes]}
+        if isinstance(n, sn.ShortcutNode)
+        else {"v": rat(n.value)}
+        for n in ln.nodes
+    ]
     ids = {}
     keep = []
 
@@ -243,6 +256,58 @@ def _run_impl(case):
         ob["model_case"] = mcase
         res["rounds"].append(ob)
     return res
+
+
+def tokens_of(text):
+    """the token list the grammar sees (word shapes on which lexer and reader agree), or None"""
+    toks = []
+    for w in text.split():
+        pw = ref.parse_word(w)
+        if pw is None:
+            return None
+        kind, arg = pw
+        if kind == "number":
+            toks.append(["num", rat(arg)])
+        elif kind == "multiply":
+            if not re.fullmatch(r"[+-]?\d+[mM]", w):
+                return None  # known finding C08-F1: not lexed as a shortcut
+            toks.append(["mul", rat(arg)])
+        else:
+            if arg == 0:
+                return None  # count 0 is outside G (C08_expand_zero_count_refuted)
+            toks.append([{"repeat": "rep", "jump": "jmp", "interpolate": "lin", "log_interpolate": "log"}[kind], arg])
+    return toks
+
+
+def parse_agrees(model_items, res):
+    """model's parse-time expansion vs the real parser's node list: structure exactly, numbers inside 1e-12,
+    logarithmic interpolates by their defining relation"""
+    rejected = "parse_err" in res
+    if model_items is None or rejected:
+        return (model_items is None) == rejected
+    impl = res["pnodes"]
+    if len(impl) != len(model_items):
+        return False
+    for mi, ii in zip(model_items, impl):
+        if ("v" in mi) != ("v" in ii):
+            return False
+        if "v" in mi:
+            if Fraction(*mi["v"]) != Fraction(*ii["v"]):
+                return False
+            continue
+        if mi["sc"] != ii["sc"] or len(mi["vals"]) != len(ii["vals"]):
+            return False
+        for mv, iv in zip(mi["vals"], ii["vals"]):
+            if mv == "J" or iv is None:
+                if not (mv == "J" and iv is None):
+                    return False
+            elif isinstance(mv, dict):
+                a, b, n, k = mv["log"]
+                if not ref.matches(("log", Fraction(*a), Fraction(*b), n, k), Fraction(*iv)):
+                    return False
+            elif not ref.close(Fraction(*mv), Fraction(*iv), Fraction(1, 10**12)):
+                return False
+    return True
 
 
 # --------------------------------------------------------------------------- oracle
@@ -652,6 +717,10 @@ def judge_card(case, ob):
 def _model_results(drv, impl):
     batch, where = [], []
     for ci, ri in enumerate(impl):
+        toks = tokens_of(ri.get("text", "")) if "text" in ri else None
+        if toks is not None:
+            batch.append({"op": "parse", "toks": toks})
+            where.append((ci, -1, "parse"))
         for k, ob in enumerate(ri.get("rounds", [])):
             if "model_case" in ob:
                 batch.append(ob["model_case"])
@@ -689,6 +758,25 @@ def check_listnode_case(chk, drv, case, ri, table, ci, confirm=True):
             v = judge_parse(mc, run_impl(mc)) or v
         chk.violation(v[0], v[1], {"case": mc, "impl": _strip(run_impl(mc))})
         return True
+    pm = table.get((ci, -1, "parse"))
+    if pm is not None:
+        if "error" in pm:
+            raise MachineryError(f"model driver error: {pm['error']}")
+        chk.traces_validated += 1
+        if not parse_agrees(pm["items"], ri):
+            chk.disagreements_checked += 1
+            r2 = run_impl(case)
+            m2 = drv.batch([{"op": "parse", "toks": tokens_of(case["text"])}])[0]
+            if parse_agrees(m2["items"], r2):
+                chk.count("flaky:parse-correspondence")
+            else:
+                chk.broken_obligation(
+                    "correspondence",
+                    "U-parse (Model/ShortcutParse.lean vs parser_base.py shortcut_sequence + ShortcutNode._expand_*)",
+                    {"impl": {"parse_err": r2.get("parse_err"), "nodes": r2.get("pnodes")}, "model": m2["items"]},
+                    dict(case, rounds=[]),
+                )
+            return True
     for k, ob in enumerate(ri.get("rounds", [])):
         v = judge_round(ob)
         spec = table.get((ci, k, "spec"))
